@@ -368,6 +368,124 @@ def _worker(part, tier, is_canary):
             out["evals"] += 4
             out["cases"] += 4
             out["results"].append(_res("views[other]:groups, channel names, select, loc, boolean masks, lazy [] indexing and iteration agree with the denotation", not bad, " | ".join(bad[:3]), backend="bounded-evaluation"))
+        elif part == "edge_chains":
+            # chains that mix synapse-restricting steps (synapse type, edge(i), select(edges=...)) with compartment-restricting
+            # steps, in both orders.  Oracle state = (compartments N, synapses E): a synapse step keeps E' = E /\ selected and the
+            # end points of E' (within N); a compartment step keeps N' = denotation within N and E' = {e in E : both ends in N'}.
+            # The views' edges AND the rows addressed by mutating calls (_edges_in_view) must be exactly E' (seeded change C11_e).
+            KEY = {"I": ("IonotropicSynapse_gS", "IonotropicSynapse_s"), "T": ("TestSynapse_gC", "TestSynapse_c")}
+            esteps = [("IonotropicSynapse", lambda v: v.IonotropicSynapse, lambda E: [e for e in E if EDGES[e][2] == "I"]),
+                      ("TestSynapse", lambda v: v.TestSynapse, lambda E: [e for e in E if EDGES[e][2] == "T"]),
+                      ("scope('global').edge(0).scope('local')", lambda v: v.scope("global").edge(0).scope("local"), lambda E: [e for e in E if e == 0]),
+                      ("scope('global').edge([1,2,5]).scope('local')", lambda v: v.scope("global").edge([1, 2, 5]).scope("local"), lambda E: [e for e in E if e in (1, 2, 5)]),
+                      ("select(edges=[0,3,5])", lambda v: v.select(edges=[0, 3, 5]), lambda E: [e for e in E if e in (0, 3, 5)]),
+                      ("select(edges=[5,1,2])", lambda v: v.select(edges=[5, 1, 2]), lambda E: [e for e in E if e in (5, 1, 2)])]
+            SELECTS = [st[2] for st in esteps if st[0].startswith("select(edges=")]
+            nsteps = [[("cell", 0)], [("cell", 1)], [("cell", [0, 1])], [("cell", [0, 2])], [("cell", "all")], [("cell", 0), ("branch", 0)], [("cell", 0), ("branch", [0, 2])],
+                      [("branch", 0)], [("cell", [1, 2]), ("comp", 0)]]
+            if tier == "quick":
+                nsteps = nsteps[:7]
+
+            def e_apply(N, E, f):
+                if E is None:
+                    return [], None
+                E2 = f(E)
+                if f in SELECTS and len(E2) != 3:
+                    return [], None        # select(edges=...) of synapses that are not in view: refused
+
+                ends = {EDGES[e][0] for e in E2} | {EDGES[e][1] for e in E2}
+                return [c for c in N if c.g in ends], E2
+
+            def n_apply(N, E, chain):
+                if E is None:
+                    return [], None
+                for l, i in chain:
+                    N = denote(N, l, i, "local")
+                    if not N:
+                        return [], []
+                gs = {c.g for c in N}
+                return N, [e for e in E if EDGES[e][0] in gs and EDGES[e][1] in gs]
+
+            def check_edges(label, mk, N, E):
+                out["evals"] += 1
+                last = label.rsplit(".", 1)[-1]
+                if last in ("IonotropicSynapse", "TestSynapse") and not E:
+                    # a synapse-type name applied to a view that holds no synapse of that type: jaxley returns the view
+                    # unchanged (as it does for a channel name that is absent from the view); the property lists channel names
+                    # but not synapse-type names and does not say what an absent name denotes - outside this contract (DESIGN 9.4)
+                    out["refusals"] += 1
+                    return
+                if last.startswith("select(edges=") and E is None:
+                    try:
+                        mk(net)
+                        bad.append(f"{label}: returned a view although some of the listed synapses are not in view")
+                    except (ValueError, AssertionError, KeyError, IndexError):
+                        out["refusals"] += 1
+                    return
+                if not N:
+                    # the property does not say whether an empty selection is refused or returned as an empty view: both are
+                    # accepted, a view that addresses anything is not
+                    try:
+                        v = mk(net)
+                        if len(v._edges_in_view) or (E == [] and len(v.edges.index)):
+                            bad.append(f"{label}: denotes no synapse but the view addresses synapses {sorted(int(x) for x in v._edges_in_view)}")
+                    except (ValueError, AssertionError, KeyError, IndexError):
+                        out["refusals"] += 1
+                    return
+                out["cases"] += 1
+                try:
+                    v = mk(net)
+                    gotN, gotE = sorted(int(x) for x in v._nodes_in_view), sorted(int(x) for x in v._edges_in_view)
+                    shown = sorted(int(x) for x in v.edges.index)
+                    if gotN != sorted(c.g for c in N):
+                        bad.append(f"{label}: selected compartments {gotN}, denotes {sorted(c.g for c in N)}")
+                        return
+                    if gotE != sorted(E) or shown != sorted(E):
+                        bad.append(f"{label}: synapses addressed by the view {gotE} (shown in .edges: {shown}), denotes {sorted(E)}")
+                        return
+                    for t in ("I", "T"):
+                        rows = sorted(e for e in E if EDGES[e][2] == t)
+                        if not rows:
+                            continue
+                        pkey, skey = KEY[t]
+                        n0 = template()
+                        before = n0.edges.copy()
+                        mk(n0).set(pkey, 7.75)
+                        ch = sorted(int(i) for i in n0.edges.index if not n0.edges.loc[i].equals(before.loc[i]))
+                        if ch != rows:
+                            bad.append(f"{label}.set({pkey}) changed synapse rows {ch}, view denotes {rows}")
+                        if len({EDGES[e][2] for e in E}) > 1:
+                            continue        # record() of a synaptic state through a view of mixed synapse types: what it should do is the open finding F5 (C08), not decided here
+                        n0 = template()
+                        mk(n0).record(skey, verbose=False)
+                        rec = sorted(int(x) for x in n0.recordings.rec_index)
+                        if rec != rows:
+                            bad.append(f"{label}.record({skey}) records synapses {rec}, view denotes {rows}")
+                except Exception as e:
+                    bad.append(f"{label}: raised {type(e).__name__}: {str(e)[:80]} although the chain denotes compartments {sorted(c.g for c in N)} and synapses {sorted(E)}")
+
+            def nmk(v, chain):
+                for l, i in chain:
+                    v = getattr(v, l)(i)
+                return v
+            for ename, ef, eo in esteps:
+                N1, E1 = e_apply(list(U), list(range(len(EDGES))), eo)
+                check_edges(f"net.{ename}", lambda n, ef=ef: ef(n), N1, E1)
+                for chain in nsteps:
+                    cname = ".".join(f"{l}({fmt(i)})" for l, i in chain)
+                    # synapse step, then compartment steps
+                    N2, E2 = n_apply(N1, E1, chain)
+                    check_edges(f"net.{ename}.{cname}", lambda n, ef=ef, chain=chain: nmk(ef(n), chain), N2, E2)
+                    # compartment steps, then synapse step
+                    N3, E3 = n_apply(list(U), list(range(len(EDGES))), chain)
+                    N4, E4 = e_apply(N3, E3, eo)
+                    check_edges(f"net.{cname}.{ename}", lambda n, ef=ef, chain=chain: ef(nmk(n, chain)), N4, E4)
+                    # synapse step, compartments, then a second synapse step
+                    if ename in ("select(edges=[0,3,5])", "scope('global').edge([1,2,5]).scope('local')"):
+                        N5, E5 = e_apply(N2, E2, esteps[0][2])
+                        check_edges(f"net.{ename}.{cname}.IonotropicSynapse", lambda n, ef=ef, chain=chain: nmk(ef(n), chain).IonotropicSynapse, N5, E5)
+            out["results"].append(_res("views[edge_chains]:chains mixing synapse-restricting and compartment-restricting steps address exactly the denoted compartments and synapses; set/record through them reach those synapse rows and no others",
+                                       not bad, " | ".join(bad[:3]), backend="bounded-evaluation"))
         elif part == "mutation":
             # mutating calls through a view change those rows and no others
             import jax.numpy as jnp
@@ -465,7 +583,7 @@ def _worker(part, tier, is_canary):
     return out
 
 
-PARTS = ["chains_local", "chains_global", "chains_switch", "other", "mutation", "loc_kernel"]
+PARTS = ["chains_local", "chains_global", "chains_switch", "other", "edge_chains", "mutation", "loc_kernel"]
 CANARIES = [
     ("chains_global", ("jaxley.modules.base:Module._reformat_index", "src", "np.arange(len(self.base.nodes))[idx]", "np.arange(len(self.nodes))[idx]")),
     ("chains_local", ("jaxley.modules.base:Module._at_nodes", "src", "where = self.nodes[self._scope + f\"_{key}_index\"].isin(idx)", "where = self.nodes[f\"global_{key}_index\"].isin(idx)")),
@@ -502,7 +620,7 @@ def main(tier):
     ck.bounded = {"evaluations": evals, "distinct_nontrivial": cases, "exhaustive": tier != "quick", "refusals_for_empty_denotations": refusals,
                   "rule": "network of 3 cells with branches [2,1,3], [1,2], [2] compartments, 6 synapses of 2 types, HH on parts, one group; all chains cell/branch/comp of depth 1-3 over 13 index forms per level "
                           "(quick: every 5th depth-3 chain) in local scope, global scope and with a scope switch after the first selection; groups, channel views, select, loc on a grid, boolean masks, lazy indexing, iteration; "
-                          "7 mutating calls x 6 views compared by table diff. A case is one distinct (chain, scope) or (view, operation) whose denotation is non-empty"}
+                          "chains mixing synapse steps (type view, global edge(i), select(edges=)) with cell/branch/comp steps in both orders, each with set/record of a synaptic key through it; 7 mutating calls x 6 views compared by table diff. A case is one distinct (chain, scope) or (view, operation) whose denotation is non-empty"}
     for f in ("jaxley.modules.base.Module._reformat_index", "jaxley.modules.base.Module._at_nodes", "jaxley.modules.base.Module._at_edges", "jaxley.modules.base.Module.select", "jaxley.modules.base.Module.loc",
               "jaxley.modules.base.Module.scope", "jaxley.modules.base.Module.__getitem__", "jaxley.modules.base.Module._iter_submodules", "jaxley.modules.base.Module._update_local_indices",
               "jaxley.modules.base.View.__init__", "jaxley.modules.base.View._set_inds_in_view", "jaxley.modules.base.Module.__getattr__"):
